@@ -1,7 +1,7 @@
 """C05 — quantise: grid, well-formed notes, survival.  Deciding oracle: the post-contract on the real
 AbsoluteSequence.quantise (monitors.py), evaluated on every call this workload and the in-situ run make."""
 from vmon import gen
-from vmon.checks.common import obs, fail, both_views, random_prefix, apply_prefix
+from vmon.checks.common import obs, fail, both_views, random_prefix, apply_prefix, same_then_edit
 
 PROP = "C05"
 MONITORS = ["quantise"]
@@ -39,7 +39,9 @@ def make_case(rng, i, tier):
     spec = {"notes": notes, "extra": extra, "start": rng.choice(["abs", "abs", "rel", "both"])}
     if rng.random() < 0.3:
         spec["pad"] = rng.randrange(0, tmax + 60)
-    prefix = random_prefix(rng, n=(1, 3), same_steps=steps) if i % 4 == 3 else []
+    prefix = []
+    if i % 4 == 3:
+        prefix = same_then_edit(rng, {"op": "quantise_same", "steps": steps}) if rng.random() < 0.4 else random_prefix(rng, n=(1, 3), same_steps=steps)
     return {"seq": spec, "steps": steps, "style": style, "prefix": prefix}
 
 
